@@ -196,6 +196,10 @@ def run_thorough(prop, pc, units, seed):
                     break
                 if r["status"] != "ok":
                     und.append(f"{u}: {r['reason'][:150]}")
+                elif [f for f in r["failures"] if not match_known(known0, prop, u, f, any_prop=True)]:
+                    # obligations fail, but only in functions whose loop / closure structure differs from the baseline: the policy's
+                    # answer for the property check is "undecided" (exit 2), and so it is here - not a survivor
+                    und.append(f"{u}: failing obligations only in functions whose loop or closure structure changed (undecided by policy)")
             if not killed_by and pc.get("kani"):
                 # Kani kernels of the property (the whole quick check against the mutated sources)
                 env = dict(os.environ, HQ_REPO=root)
